@@ -206,11 +206,34 @@ def bounds(rep, K):
                     b = refine(b, v, True)
                 return b
             return b
-        if isinstance(test, ast.Compare) and len(test.ops) == 1 and is_name(test.left, 'z_cur'):
-            rhs = parse_cap(test.comparators[0])
-            if rhs is None:
+        if isinstance(test, ast.Compare) and len(test.ops) == 1:
+            # any comparison that is linear in z_cur and z_cap:  L op R  <=>  z_cur op' (k*z_cap + c)
+            def lin(e):
+                if isinstance(e, ast.Constant) and type(e.value) is int:
+                    return (0, 0, e.value)
+                if is_name(e, 'z_cur'):
+                    return (1, 0, 0)
+                if is_name(e, 'z_cap'):
+                    return (0, 1, 0)
+                if isinstance(e, ast.BinOp) and isinstance(e.op, (ast.Add, ast.Sub)):
+                    l, r = lin(e.left), lin(e.right)
+                    if l is None or r is None:
+                        return None
+                    sg = 1 if isinstance(e.op, ast.Add) else -1
+                    return (l[0] + sg * r[0], l[1] + sg * r[1], l[2] + sg * r[2])
+                return None
+            L, R = lin(test.left), lin(test.comparators[0])
+            if L is None or R is None:
+                return b
+            a = L[0] - R[0]
+            if a not in (1, -1):
+                return b
+            rhs = (R[1] - L[1], R[2] - L[2]) if a == 1 else (L[1] - R[1], L[2] - R[2])
+            if rhs[0] not in (0, 1):
                 return b
             op = test.ops[0]
+            if a == -1:
+                op = {ast.Lt: ast.Gt, ast.Gt: ast.Lt, ast.LtE: ast.GtE, ast.GtE: ast.LtE}.get(type(op), type(op))()
             nb = b.copy()
             def tighten_hi(v):
                 # keep the smaller
@@ -505,34 +528,71 @@ def stimulus_table(rep, repo, rid='C03.stimulus'):
     rep.ob(rid, 'wave_assign_gpu: value = final(s[2]) | 2*initial(s[0]); ttime = s[1]', ok)
     if not ok:
         rep.violate(rid, mod, g, val[0] if val else 'value', 'wave_assign_gpu: value must be int(s[2,y,x] >= 0.5) | 2*int(s[0,y,x] >= 0.5) and ttime = s[1,y,x]', node=g)
-    chain = [s for s in gb if isinstance(s, ast.If) and cz(s.test).startswith('value==')]
-    if len(chain) != 1:
+    # a small interpreter over the kernel body with `value` known: plain assignments, stores into c[c_loc + k, x] and
+    # if-statements that test `value` (any other test, e.g. the thread guards, is taken as false)
+    if not any(isinstance(s, ast.If) and any(is_name(n, 'value') for n in ast.walk(s.test)) for s in gb) and \
+            not any(is_name(n, 'value') for s in gb if isinstance(s, ast.Assign) for n in ast.walk(s.value) if s not in val):
         raise ModelError('wave_assign_gpu: value dispatch not found')
-    arms, orelse = flatten_if_chain(chain[0])
-    amap = {}
-    for t, body in arms:
-        if isinstance(t, ast.Compare) and is_name(t.left, 'value') and isinstance(t.ops[0], ast.Eq) and isinstance(t.comparators[0], ast.Constant):
-            amap[t.comparators[0].value] = body
-    rest = [v for v in range(4) if v not in amap]
-    if len(rest) == 1:
-        amap[rest[0]] = orelse
-    tail = {}
-    for s in gb:
-        if isinstance(s, ast.Assign) and isinstance(s.targets[0], ast.Subscript) and is_name(s.targets[0].value, 'c'):
-            tail[cz(s.targets[0].slice)] = s.value
+
+    def gpu_eval(v):
+        env = {'value': v, 'ttime': 't', 'TMAX': 'TMAX', 'TMIN': 'TMIN'}
+        wf = [None, None, None]
+
+        def ev(e):
+            if isinstance(e, ast.Constant):
+                return e.value
+            if isinstance(e, ast.Name):
+                return env.get(e.id)
+            if isinstance(e, ast.IfExp):
+                t = ev(e.test)
+                return None if t is None else ev(e.body) if t else ev(e.orelse)
+            if isinstance(e, ast.Compare) and len(e.ops) == 1:
+                l, r = ev(e.left), ev(e.comparators[0])
+                if isinstance(l, int) and isinstance(r, int):
+                    op = e.ops[0]
+                    return {ast.Eq: l == r, ast.NotEq: l != r, ast.Lt: l < r, ast.LtE: l <= r, ast.Gt: l > r, ast.GtE: l >= r}.get(type(op))
+                if isinstance(e.ops[0], (ast.In, ast.NotIn)) and isinstance(l, int) and isinstance(e.comparators[0], (ast.Tuple, ast.List, ast.Set)):
+                    vs = [ev(x) for x in e.comparators[0].elts]
+                    if all(isinstance(x, int) for x in vs):
+                        return (l in vs) == isinstance(e.ops[0], ast.In)
+                return None
+            if isinstance(e, ast.BoolOp):
+                vs = [ev(x) for x in e.values]
+                if None in vs:
+                    return None
+                return all(vs) if isinstance(e.op, ast.And) else any(vs)
+            if isinstance(e, ast.UnaryOp) and isinstance(e.op, ast.Not):
+                t = ev(e.operand)
+                return None if t is None else not t
+            if isinstance(e, ast.BinOp) and isinstance(e.op, (ast.BitAnd, ast.BitOr, ast.RShift, ast.BitXor, ast.FloorDiv, ast.Mod)):
+                l, r = ev(e.left), ev(e.right)
+                if isinstance(l, int) and isinstance(r, int):
+                    return {ast.BitAnd: l & r, ast.BitOr: l | r, ast.RShift: l >> r, ast.BitXor: l ^ r,
+                            ast.FloorDiv: l // r if r else None, ast.Mod: l % r if r else None}[type(e.op)]
+                return None
+            return sym_entry(e, 'ttime')
+
+        def run(stmts):
+            for st in stmts:
+                if isinstance(st, ast.Assign) and len(st.targets) == 1 and isinstance(st.targets[0], ast.Name):
+                    if st.targets[0].id not in ('value', 'ttime'):
+                        env[st.targets[0].id] = ev(st.value)
+                elif isinstance(st, ast.Assign) and len(st.targets) == 1 and isinstance(st.targets[0], ast.Subscript) and is_name(st.targets[0].value, 'c'):
+                    off = {'(c_loc,x)': 0, '(c_loc+1,x)': 1, '(c_loc+2,x)': 2}.get(cz(st.targets[0].slice))
+                    if off is not None:
+                        wf[off] = ev(st.value)
+                elif isinstance(st, ast.If):
+                    if any(isinstance(n, ast.Name) and n.id not in ('TMAX', 'TMIN', 'ttime') and env.get(n.id) is not None for n in ast.walk(st.test)):
+                        t = ev(st.test)
+                        if t is None:
+                            raise ModelError(f'wave_assign_gpu: test outside the modelled subset: {cz(st.test)}')
+                        run(st.body if t else st.orelse)
+                    # other tests are the thread-range guards (checked separately below)
+        run(gb)
+        return [x if x in ('TMAX', 'TMIN', 't') else None for x in wf]
     for init in (0, 1):
         for fin in (0, 1):
-            v = fin + 2 * init
-            wf = [None, None, None]
-            for s in amap.get(v, []):
-                if isinstance(s, ast.Assign) and isinstance(s.targets[0], ast.Subscript) and is_name(s.targets[0].value, 'c'):
-                    off = {'(c_loc,x)': 0, '(c_loc+1,x)': 1, '(c_loc+2,x)': 2}.get(cz(s.targets[0].slice))
-                    if off is not None:
-                        wf[off] = sym_entry(s.value, 'ttime')
-            for k, off in (('(c_loc,x)', 0), ('(c_loc+1,x)', 1), ('(c_loc+2,x)', 2)):
-                if k in tail:
-                    wf[off] = sym_entry(tail[k], 'ttime')
-            tables[('gpu', init, fin)] = wf
+            tables[('gpu', init, fin)] = gpu_eval(fin + 2 * init)
     n = 0
     for (side, init, fin), wf in sorted(tables.items()):
         n += 1
